@@ -501,3 +501,52 @@ func fromHex(fr *frame, c *Term) (*Term, bool) {
 	v := Ite(in('0', '9'), BVSub(c, BVU(8, '0')), Ite(in('a', 'f'), BVSub(c, BVU(8, 'a'-10)), BVSub(c, BVU(8, 'A'-10))))
 	return v, true
 }
+
+// encoding/binary.Write of a fixed-size integer (or a pointer to one, or a
+// byte slice): the reflective slow path of the real function is replaced by
+// the encoding it computes.
+func init() {
+	reg("encoding/binary.Write", func(fr *frame, fn *ssa.Function, a []Value) Value {
+		w, _ := a[0].(Iface)
+		ord, _ := a[1].(Iface)
+		data, _ := a[2].(Iface)
+		if data.T == nil || ord.T == nil {
+			panic(unsupported("binary.Write of nil data/order"))
+		}
+		little := strings.Contains(ord.T.String(), "littleEndian")
+		v := data.V
+		if cell, ok := v.(*Value); ok && cell != nil {
+			v = *cell
+		}
+		var bs SliceV
+		switch x := v.(type) {
+		case *Term:
+			if x.S.K != KBV || x.S.W%8 != 0 {
+				panic(unsupported("binary.Write of non-integer scalar"))
+			}
+			n := x.S.W / 8
+			for i := 0; i < n; i++ {
+				k := i
+				if !little {
+					k = n - 1 - i
+				}
+				bs = append(bs, Extract(8*k+7, 8*k, x))
+			}
+		case SliceV:
+			for _, e := range x {
+				t, ok := e.(*Term)
+				if !ok || t.S.K != KBV || t.S.W != 8 {
+					panic(unsupported("binary.Write of a non-byte slice"))
+				}
+				bs = append(bs, t)
+			}
+		default:
+			panic(unsupported(fmt.Sprintf("binary.Write of %T", v)))
+		}
+		res, ok := fr.p.callMethodByName(fr, w, "Write", bs)
+		if !ok {
+			panic(unsupported("binary.Write: writer without Write"))
+		}
+		return res.(Tuple)[1]
+	})
+}
